@@ -50,7 +50,7 @@ AXIS_POLICIES = [dict(DEFAULT_POLICY)] + [
     for m in modes if m != DEFAULT_POLICY[o]]
 assert len(AXIS_POLICIES) == 12
 TRUE_TOKEN = "T!"
-TMP_ROOT = "/tmp/rtc_c05"
+TMP_ROOT = "/tmp/rtc_c05/%d" % os.getpid()      # per run (workers are forked and inherit it); removed by run()/replay()
 
 
 # --------------------------------------------------------------------------- running the real merger
@@ -106,8 +106,9 @@ def _exc_detail(exc):
     return "-".join(msg.split("-")[:6])
 
 
-def slug(msg, words=7):
-    msg = re.sub(r"[^A-Za-z]+", "-", str(msg)).strip("-").lower()
+def slug(msg, words=8):
+    msg = re.split(r"[,.:]", str(msg), 1)[0]          # the fixed head of the message, not the values it quotes
+    msg = re.sub(r"[^A-Za-z]+", "-", msg).strip("-").lower()
     return "-".join(msg.split("-")[:words])
 
 
@@ -768,6 +769,14 @@ def self_check(tier):
                 raise AssertionError("generator/loader mismatch for %r: %r" % (text, back))
 
 
+def _cleanup():
+    shutil.rmtree(TMP_ROOT, ignore_errors=True)
+    try:
+        os.rmdir(os.path.dirname(TMP_ROOT))
+    except OSError:
+        pass
+
+
 def run(tier="quick", seed=0, jobs=None):
     p, texts = pools(tier)
     self_check(tier)
@@ -822,7 +831,7 @@ def run(tier="quick", seed=0, jobs=None):
                 cpu += r["cpu_s"]
             stage_info.append({"stage": name, "pairs": len(items), "cases": col.evaluations - before, "cpu_s": round(cpu, 1)})
     finally:
-        shutil.rmtree(TMP_ROOT, ignore_errors=True)
+        _cleanup()
     bounds = {
         "d3": "rtc.gen.trees(max_nodes=3, max_depth=2, keys=(a,b), scalars=(null,true,1,'a'), sets) = %d documents" % n3,
         "d4": "rtc.gen.trees(max_nodes=4, max_depth=3, keys=(a,b), scalars=(null,1,'a'), sets) = %d documents" % n4,
@@ -856,7 +865,7 @@ def replay(inp):
         return {"key": key, "what": what, "inputs": [inp], "observed": _jsonable(r["real"]),
                 "expected": _jsonable(r["expected"]), "count": 1}
     finally:
-        shutil.rmtree(TMP_ROOT, ignore_errors=True)
+        _cleanup()
 
 
 def main(argv, mod):
